@@ -148,7 +148,7 @@ pub fn run_c01(cx: &Cx) -> PropResult {
     let mut r = PropResult::new(
         acc,
         "exploration",
-        "cases = (type expression T, value v): T drawn with every built-in constructor forced at the root in turn (all leaves, every tuple arity 1-8, arrays of 0/1/2/3/16/17/32/33 elements for u8 and non-u8 elements, every container) and random children to the depth bound; v from boundary pools mixed with uniform draws. Oracle: decode(encode(v)) == v under model equality (floats by bits, hash containers as sets). Entry point alternates between serialize_to_byte_vec and serialize_to_bytes. Non-trivial = encoding longer than 1 byte or T of depth >= 2; distinct by hash of (T, v).",
+        "cases = (type expression T, value v): T drawn with every built-in constructor forced at the root in turn (all leaves, every tuple arity 1-8, arrays of 0/1/2/3/16/17/32/33 elements for u8 and non-u8 elements, every container) and random children to the depth bound; v from boundary pools mixed with uniform draws. Oracle: decode(encode(v)) == v under model equality (floats by bits, hash containers as sets). Entry point alternates between serialize_to_byte_vec and serialize_to_bytes. A second stream round-trips forty concrete container types (Vec<String>, HashMap<String, u8>, LinkedList<f64>, [u16; 3], Option<Vec<u8>>, ...) at their REAL static types and compares their bytes with the reference encoding. Non-trivial = encoding longer than 1 byte or T of depth >= 2; distinct by hash of (T, v).",
     );
     r.assumptions = vec![
         "TZ=UTC is exported by ./check (DateTime<Local> over unambiguous local times)".into(),
@@ -346,7 +346,7 @@ pub fn run_c04(cx: &Cx) -> PropResult {
     let mut r = PropResult::new(
         acc,
         "exploration",
-        "anchors first: the reference decoder must read the Scala-written golden/dataset1.bin completely (242 540 bytes, unknown-length list, evolution header, sorted-constructor enum) to the values spelled out in the repository's golden test and encode the pinned 14-byte Point vector (else exit 2: broken oracle), and desert must read the golden file to the same value. Then cases = (type expression T, value v, form choices). Encode direction: serialize(v) must equal the independent reference encoder byte for byte (built-in types, derived declarations interpreted and compiled, and the serialize-only shapes str, [T], &T, Rc<str>, Rc<[T]>; the public serialize_iterator under exact, bounded-inexact and unbounded size hints must write the known-length layout only for an exact hint). Decode direction: the reference encoder renders v with every sequence node independently in known-length or unknown-length form (a form the Rust writer never emits); deserialize must return v. Non-trivial = encoding of >= 2 bytes; distinct by hash of (T, v, forms).",
+        "anchors first: the reference decoder must read the Scala-written golden/dataset1.bin completely (242 540 bytes, unknown-length list, evolution header, sorted-constructor enum) to the values spelled out in the repository's golden test and encode the pinned 14-byte Point vector (else exit 2: broken oracle), and desert must read the golden file to the same value. Then cases = (type expression T, value v, form choices). Encode direction: serialize(v) must equal the independent reference encoder byte for byte (built-in types, derived declarations interpreted and compiled, and the serialize-only shapes str, [T], &T, Rc<str>, Rc<[T]>; the public serialize_iterator under exact, bounded-inexact and unbounded size hints must write the known-length layout only for an exact hint). Decode direction: the reference encoder renders v with every sequence node independently in known-length or unknown-length form (a form the Rust writer never emits); deserialize must return v. The same byte comparison for forty concrete container types at their real static types. Non-trivial = encoding of >= 2 bytes; distinct by hash of (T, v, forms).",
     );
     r.assumptions = vec!["the reference codec (vmodel::refcodec) is the statement of the format; it shares no code with desert".into()];
     r
